@@ -149,3 +149,17 @@ k("c09_slyce_python_semantics_len3", ["C09"], "bounded",
   "ASSUMED DEPENDENCY CONTRACT: slyce::Slice{start,end,step}.apply selects Python's s[start:stop:step]",
   bound="len <= 3, |start|,|stop| <= 5, |step| <= 4, each optional", probe="slice",
   inputs=("usize", "opt_i64", "opt_i64", "opt_i64"), functions=["slyce::Slice::apply (dependency)"])
+
+
+def k2(name, *a, **kw):
+    k(name, *a, **kw)
+    K[-1]["harness"] = "instruction::slicing::verif_slicing::" + name
+
+
+k2("c09_slicing_bounds_full_domain_len3", ["C09"], "bounded",
+   "for EVERY optional i64 start/stop/step: Slicing::to_bound + slyce never overflow/panic and select Python's "
+   "s[start:stop:step] (empty for step 0)", bound="sequence length <= 3 (bounds and step: full i64 domain)",
+   inputs=("usize", "opt_i64", "opt_i64", "opt_i64"), probe="slice", functions=["Slicing::to_bound", "slyce::Slice::apply"])
+k2("c09_to_bound_is_identity_above_min", ["C09"], "complete",
+   "Slicing::to_bound is the identity except that i64::MIN becomes -isize::MAX (never isize::MIN, which slyce would negate)",
+   domain="all i in i64", inputs=("i64",), probe="slice", functions=["Slicing::to_bound"])
